@@ -101,6 +101,20 @@ func buildHistPool(seed uint64, big bool) *histPool {
 			hp.singles = append(hp.singles, add(Medium{Records: sc.Media[0].Records}, hasAccumSource(sc.Media[0].Records.Build())))
 		}
 	}
+	// malformed streams (rejected definitions, unknown base types, broken sizes): error
+	// paths run too, and must leave nothing behind
+	{
+		c01 := &propC01{}
+		c01.Prepare(seed, "replay")
+		for i := 0; i < 6; i++ {
+			if sc := c01.genMutation(5000 + i); sc != nil && len(sc.Media) > 0 {
+				m := sc.Media[0]
+				m.Tail = ""
+				b := (&Scenario{Media: []Medium{m}}).buildMedia()[m.ID]
+				hp.singles = append(hp.singles, add(Medium{Hex: m.Hex}, hasAccumSource(b)))
+			}
+		}
+	}
 	// state-sensitive probes (error streams included: their baseline is the same error)
 	for _, rs := range stateProbeStreams(NewRng(seed, "C08/stateprobe", 0)) {
 		id := add(Medium{Records: rs}, false)
@@ -125,6 +139,23 @@ func buildHistPool(seed uint64, big bool) *histPool {
 	for i := 0; i < 8; i++ {
 		r := NewRng(seed, "C08/file", i)
 		hp.files = append(hp.files, genModelFile(r, MFOpts{InDomain: true, MaxMsgs: 6, MaxFields: 8}))
+	}
+	// Files with arrays longer than the profile length (Encode truncates; whatever it
+	// does to get there must stay private to the call)
+	for i := 0; i < 3; i++ {
+		r := NewRng(seed, "C08/longfile", i)
+		mf := genModelFile(r, MFOpts{InDomain: true, FT: []byte{4, 2, 20}[i], MaxMsgs: 3, MaxFields: 5})
+		for _, spec := range [][2]string{{"78", "Time"}, {"18", "TimeInHrZone"}, {"2", "TimeOffset"}} {
+			var g uint16
+			fmt.Sscan(spec[0], &g)
+			if _, hosted := hostsOf(mf.Type)[g]; !hosted {
+				continue
+			}
+			if pf := fieldByName(g, spec[1]); pf != nil {
+				mf.Msgs = append(mf.Msgs, MMsg{Global: g, Fields: map[int]string{pf.SIndex: "[u1 u2 u3 u4 u5]"}})
+			}
+		}
+		hp.files = append(hp.files, mf)
 	}
 	// Files whose Encode fails part-way (a string that is not UTF-8, placed in a late
 	// message): whatever such a call leaves behind must not reach the next call
